@@ -486,3 +486,8 @@ typed!(c20_typed_cancel_cancelled, 2, CANCELLED);
 typed!(c20_typed_dropped_inflight_cancelled, 3, CANCELLED);
 typed!(c20_typed_dropped_inflight_completed, 3, COMPLETED);
 typed!(c20_typed_dropped_inflight_dropped, 3, DROPPED);
+
+// `write_and_forget` itself was tried again in round 3 (immediate completion; blocked then delivered): CBMC does not finish
+// even the immediate case in 900 s.  The waker stored in the heap-allocated operation is not a constant to symex, so every
+// `Waker::wake`/`drop` fans out over all one-pointer-argument functions of the program.  It stays replaced by the recording
+// stub in the typed-wrapper harnesses and is listed as not covered.
